@@ -1,7 +1,15 @@
 """Schema part of the translator: every struct/enum deriving MlsSize/MlsEncode/MlsDecode in the listed crates
 (and the harness' own test types) becomes a `MlsVerif.Codec.Schema` term, when all its field types resolve to
 generic codec nodes.  Hand-written codecs are NOT guessed: a type depending on one is reported as unresolved
-(with the reason) in gen_manifest.json and left out."""
+(with the reason) in gen_manifest.json and left out of Gen/Schemas.lean.
+
+Second pass (`CodecResolver`, Gen/Codecs.lean): every item that does not resolve to a plain `Schema`, or whose schema
+contains a refined decoder (LeafIndex, ExtensionList), becomes a codec expression `S_<Name> : CSpec`
+(lean/MlsVerif/Model/CodecSpec.lean) built from the derive layout (`seq`, `tagged`, `vec`, `opt`, `mapOf`, `ofSchema`)
+and, for the types with a hand-written codec, from the hand model of Model/CodecCustom.lean applied to the component
+codecs found in the Rust item.  A hand model is used only if the Rust item has exactly the shape the model was written
+for (variant / field lists under the enabled features); the schemas hard-wired in the hand models are tied to the
+generated ones by `rfl` theorems emitted into Gen/Codecs.lean."""
 import os, re
 
 FEATURES = {"std", "rayon", "rfc_compliant", "private_message", "custom_proposal", "out_of_order", "psk", "x509",
@@ -84,6 +92,8 @@ def split_top(s, sep=","):
 class Items:
     def __init__(self):
         self.items = {}      # name -> dict(kind, generics, fields/variants, file)
+        self.raw = {}        # every struct/enum carrying attributes (derived or not): shapes of the hand-written types
+        self.shadowed = {}   # module-qualified name -> derived item hidden by a later item of the same name
         self.aliases = {}
         self.consts = {}
 
@@ -96,8 +106,7 @@ class Items:
         # items with a derive of the codec traits
         for m in re.finditer(r"((?:#\[[^\]]*\]\s*)+)(?:pub(?:\([a-z]+\))?\s+)?(struct|enum)\s+(\w+)\s*(<[^>{(]*>)?\s*([({])", src, flags=re.S):
             attrs, kind, name, generics, opener = m.groups()
-            if not re.search(r"derive\([^)]*Mls(Size|Encode|Decode)", attrs):
-                continue
+            derived = re.search(r"derive\([^)]*Mls(Size|Encode|Decode)", attrs) is not None
             if not attrs_enabled(attrs):
                 continue
             i = m.end()
@@ -112,8 +121,22 @@ class Items:
             gen = [g.split(":")[0].strip() for g in split_top(generics[1:-1])] if generics else []
             gen = [g for g in gen if g and not g.startswith("'")]
             repr_m = re.search(r"repr\((u\d+)\)", attrs)
-            self.items[name] = {"kind": kind, "generics": gen, "body": body, "tuple": opener == "(", "file": rel,
-                                "repr": repr_m.group(1) if repr_m else None}
+            rec = {"kind": kind, "generics": gen, "body": body, "tuple": opener == "(", "file": rel,
+                   "repr": repr_m.group(1) if repr_m else None,
+                   "derives": set(re.findall(r"\bMls(?:Size|Encode|Decode)\b", " ".join(re.findall(r"derive\(([^)]*)\)", attrs))))}
+            self.raw.setdefault(name, rec)
+            if derived:
+                # two items of the same name (message_processor::CachedProposal / proposal_cache::CachedProposal): a bare
+                # name refers to the last one scanned (first pass, unchanged); the shadowed one is kept under its
+                # module-qualified name for the second pass
+                prev = self.items.get(name)
+                if prev is not None and (prev["body"] != body or prev["file"] != rel):
+                    stem = os.path.splitext(os.path.basename(prev["file"]))[0]
+                    q = (os.path.basename(os.path.dirname(prev["file"])) if stem == "mod" else stem) + "::" + name
+                    self.shadowed[q] = prev
+                    self.raw[q] = prev
+                self.items[name] = rec
+                self.raw[name] = rec
 
 
 def parse_fields(body, tuple_struct):
@@ -183,6 +206,8 @@ class Resolver:
             return ".bytes"
         if t in PRIM:
             return PRIM[t]
+        if t.startswith("(") and t.endswith(")"):      # `(T, U)` (mls-rs-codec/src/tuple.rs): the fields in order
+            return ".struct [" + ", ".join(self.ty(a, env) for a in split_top(t[1:-1])) + "]"
         m = re.fullmatch(r"([\w:]+)\s*<(.*)>", t, flags=re.S)
         if m:
             head = m.group(1).split("::")[-1]
@@ -256,6 +281,391 @@ class Resolver:
         return lean_name
 
 
+# ------------------------------------------------------------------------------------------------------------
+# second pass: codec expressions (`CSpec`, lean/MlsVerif/Model/CodecSpec.lean) for what is not a plain schema
+
+
+def parse_raw_variants(body):
+    """Variants of an enum WITHOUT explicit discriminants (the hand-written codecs): (name, kind, payload) with
+    kind unit | tuple (payload: list of types) | struct (payload: list of (field, type)); cfg-filtered."""
+    out = []
+    for part in split_top(body):
+        part = part.strip()
+        if not part:
+            continue
+        attrs = "".join(re.findall(r"#\[[^\]]*\]", part, flags=re.S))
+        rest = re.sub(r"#\[[^\]]*\]", "", part, flags=re.S).strip()
+        if not attrs_enabled(attrs):
+            continue
+        rest = re.sub(r"\s*=\s*(0x[0-9a-fA-F]+|\d+)\s*(u\d+)?$", "", rest)
+        mm = re.fullmatch(r"(\w+)\s*(?:\((.*)\)|\{(.*)\})?", rest, flags=re.S)
+        if not mm:
+            raise KeyError(f"cannot parse variant `{' '.join(rest.split())}`")
+        name, tup, st = mm.groups()
+        if tup is not None:
+            out.append((name, "tuple", [" ".join(x.split()) for x in split_top(tup)]))
+        elif st is not None:
+            out.append((name, "struct", [(f, ty) for (f, ty, _) in parse_fields(st, False)]))
+        else:
+            out.append((name, "unit", []))
+    return out
+
+
+def par(x):
+    return x if re.fullmatch(r"[\w.]+", x) else "(" + x + ")"
+
+
+def norm_ty(t):
+    t = " ".join(t.split())
+    t = re.sub(r"^&\s*('\w+\s+)?(mut\s+)?", "", t)
+    return t
+
+
+# hand-written codecs that need context the caller supplies (content type, presence of the group context), or that
+# only exist inside another hand-written codec, or that are never decoded: no codec of their own
+NO_OWN_CODEC = {
+    "FramedContentAuthData": "decoder takes the content type as an argument; reached through PublicMessage / AuthenticatedContent",
+    "PrivateMessageContent": "decoder takes the content type of the enclosing PrivateMessage as an argument (model: privateMessageContent)",
+    "AuthenticatedContentTBS": "encode-only (signature input; model: authenticatedContentTBS)",
+    "LeafNodeTBS": "encode-only (signature input)",
+    "CustomProposal": "no codec of its own: written by Proposal as proposal type + opaque bytes",
+}
+
+
+class CodecResolver:
+    """CSpec expressions.  `self.res` is the schema resolver (first pass), asked first for every type: a type that is a
+    plain schema without refined decoder inside stays `.ofSchema T_X`."""
+
+    def __init__(self, items, res):
+        self.it, self.res = items, res
+        self.done = {}       # key -> lean name S_… | ("unresolved", reason)
+        self.order = []      # (lean name, key, expr, file, canon, how)
+        self.canon = {}      # lean name -> bool
+        self.ties = {}       # theorem name -> (statement, doc), insertion-ordered
+        self._sc = {}
+
+    # ---- helpers on first-pass results
+    def schema_expr_of(self):
+        return {ln: expr for (ln, _, expr, _) in self.res.order}
+
+    def schema_refined(self, expr):
+        return any(re.search(r"\b" + re.escape(ln) + r"\b", expr) for ln in self.res.refined)
+
+    def schema_canon(self, expr):
+        """`Canon`: neither bool nor map inside"""
+        if re.search(r"\.bool\b|\.map\b", expr):
+            return False
+        exprs = self.schema_expr_of()
+        for n in set(re.findall(r"\bT_\w+", expr)):
+            if n not in self._sc:
+                self._sc[n] = self.schema_canon(exprs[n])
+            if not self._sc[n]:
+                return False
+        return True
+
+    def pure(self, t, env, with_=None):
+        """schema expression of `t` if it is a plain schema without refined decoder inside, else None"""
+        senv = {k: v["s"] for k, v in env.items() if v["s"] is not None}
+        if any(re.search(r"\b" + re.escape(k) + r"\b", t) for k, v in env.items() if v["s"] is None):
+            return None
+        try:
+            e = self.res.ty(t, senv, with_)
+        except KeyError:
+            return None
+        return None if self.schema_refined(e) else e
+
+    def tie(self, name, stmt, doc):
+        self.ties.setdefault(name, (stmt, doc))
+
+    def need_schema(self, ty_name, what):
+        ln = self.res.done.get(ty_name)
+        if not isinstance(ln, str):
+            raise KeyError(f"hand model `{what}` does not fit: {ty_name} is not a plain schema")
+        return ln
+
+    # ---- types
+    def cty(self, t, env, with_=None):
+        """(CSpec expression, canonical?) of Rust type text `t`; KeyError(reason) if it cannot be built"""
+        t = norm_ty(t)
+        if with_ == "mls_rs_codec::byte_vec":
+            return ".ofSchema .bytes", True
+        if t in env:
+            return env[t]["c"]
+        e = self.pure(t, env, with_)
+        if e is not None:
+            return ".ofSchema " + par(e), self.schema_canon(e)
+        if t.startswith("(") and t.endswith(")"):
+            parts = [self.cty(a, env) for a in split_top(t[1:-1])]
+            return ".seq [" + ", ".join(x for x, _ in parts) + "]", all(c for _, c in parts)
+        m = re.fullmatch(r"([\w:]+)\s*<(.*)>", t, flags=re.S)
+        if m:
+            head = m.group(1).split("::")[-1]
+            args = [a.strip() for a in split_top(m.group(2)) if not a.strip().startswith("'")]
+            if head == "Vec":
+                x, c = self.cty(args[0], env)
+                return ".vec " + par(x), c
+            if head == "Option":
+                x, c = self.cty(args[0], env)
+                return ".opt " + par(x), c
+            if head in TRANSPARENT:
+                return self.cty(args[-1], env)
+            if head in MAPS:
+                k = self.pure(args[0], env)
+                if k is None:
+                    raise KeyError(f"map key {args[0]} is not a plain schema")
+                x, _ = self.cty(args[1], env)
+                return ".mapOf " + par(k) + " " + par(x), False
+            if head in self.it.raw:
+                return self.item(head, args, env)
+            raise KeyError(f"unknown generic type {t}")
+        head = t.split("::")[-1]
+        if head in self.it.aliases and head not in self.it.raw:
+            return self.cty(self.it.aliases[head], env)
+        if head in self.it.raw:
+            return self.item(head, [], env)
+        raise KeyError(f"unknown type {t}")
+
+    def item(self, name, args, env):
+        if name == "LeafIndex":
+            return self.hand_leaf_index()
+        if name == "ExtensionList":
+            return self.hand_extension_list()
+        # generic parameters of the enclosing item are replaced by what they stand for (`TreeSecretsVec<T>` inside
+        # `SecretTree<NodeIndex>` is `TreeSecretsVec<NodeIndex>`)
+        def subst(a):
+            a = norm_ty(a)
+            for g, v in env.items():
+                a = re.sub(r"\b" + re.escape(g) + r"\b", v["txt"], a)
+            return a
+        key = name + ("<" + ",".join(subst(a) for a in args) + ">" if args else "")
+        if key in self.done:
+            r = self.done[key]
+            if isinstance(r, tuple):
+                raise KeyError(r[1])
+            return r, self.canon[r]
+        it = self.it.raw[name]
+        self.done[key] = ("unresolved", "recursive type")
+        try:
+            sub = {}
+            for g, a in zip(it["generics"], args):
+                sub[g] = {"c": self.cty(a, env), "s": self.pure(a, env), "txt": subst(a)}
+            builder = getattr(self, "hand_" + name, None)
+            if builder is not None:
+                expr, canon, how = builder(it, args, sub) + ("hand model",)
+            elif name in NO_OWN_CODEC:
+                raise KeyError(f"hand-written codec {name}: {NO_OWN_CODEC[name]}")
+            elif "MlsDecode" not in it["derives"]:
+                if it["derives"]:
+                    raise KeyError("encode-only (derives " + "/".join(sorted(it["derives"])) + ", no decoder)")
+                raise KeyError(f"hand-written codec {name} without hand model")
+            else:
+                expr, canon, how = self.derived(it, sub) + ("derive",)
+        except KeyError as e:
+            self.done[key] = ("unresolved", str(e).strip("'\""))
+            raise
+        lean_name = "S_" + re.sub(r"\W", "_", key)
+        self.done[key] = lean_name
+        self.canon[lean_name] = canon
+        self.order.append((lean_name, key, expr, it["file"], canon, how))
+        return lean_name, canon
+
+    def derived(self, it, env):
+        if it["kind"] == "struct":
+            fs = [self.cty(ty, env, w) for (_, ty, w) in parse_fields(it["body"], it["tuple"])]
+            return ".seq [" + ", ".join(x for x, _ in fs) + "]", all(c for _, c in fs)
+        vs = parse_variants(it["body"])
+        if vs is None:
+            raise KeyError("enum variant without explicit discriminant")
+        width, cases, canon = None, [], True
+        for (vn, payload, disc, suffix, w) in vs:
+            wd = suffix or it["repr"]
+            if not wd:
+                raise KeyError("enum without repr")
+            width = {"u8": 1, "u16": 2, "u32": 4, "u64": 8}[wd]
+            if payload is None:
+                cases.append(f"({disc}, none)")
+            else:
+                ps = split_top(payload)
+                if len(ps) != 1:
+                    raise KeyError("enum variant with more than one field")
+                pt = re.sub(r"#\[[^\]]*\]", "", ps[0]).strip()
+                x, c = self.cty(pt, env, w)
+                canon = canon and c
+                cases.append(f"({disc}, some {par(x)})")
+        return f".tagged {width} [" + ", ".join(cases) + "]", canon
+
+    # ---- hand models (Model/CodecCustom.lean): used only when the Rust item has the shape they were written for
+    def fields_of(self, name):
+        it = self.it.raw[name]
+        return [(f, norm_ty(ty), w) for (f, ty, w) in parse_fields(it["body"], it["tuple"])]
+
+    def expect(self, what, got, want):
+        if got != want:
+            raise KeyError(f"hand model `{what}` does not fit the Rust item: found {got}, modelled {want}")
+
+    def hand_leaf_index(self):
+        self.expect("leafIndex", [(f, ty) for (f, ty, _) in self.fields_of("LeafIndex")], [(None, "u32")])
+        return ".leafIndex", True
+
+    def hand_extension_list(self):
+        self.expect("extensionList", [(f, ty) for (f, ty, _) in self.fields_of("ExtensionList")], [(None, "Vec<Extension>")])
+        self.tie("tie_extension", f"{self.need_schema('Extension', 'extensionList')} = extensionSchema",
+                 "`extensionList` decodes its elements with `extensionSchema`")
+        return ".extensionList", True
+
+    def hand_Credential(self, it, args, env):
+        vs = parse_raw_variants(it["body"])
+        self.expect("credential", [(n, k) for (n, k, _) in vs], [("Basic", "tuple"), ("X509", "tuple"), ("Custom", "tuple")])
+        self.expect("credential", vs[2][2], ["CustomCredential"])
+        self.expect("credential", [(f, ty) for (f, ty, _) in self.fields_of("CustomCredential")],
+                    [("credential_type", "CredentialType"), ("data", "Vec<u8>")])
+        self.tie("tie_credentialType", f"{self.need_schema('CredentialType', 'credential')} = u16Schema",
+                 "`credential`: two-byte discriminant = `CredentialType(u16)`")
+        (b, c1), (x, c2) = self.cty(vs[0][2][0], {}), self.cty(vs[1][2][0], {})
+        return f".credential {par(b)} {par(x)}", c1 and c2
+
+    def hand_Proposal(self, it, args, env):
+        vs = parse_raw_variants(it["body"])
+        self.expect("proposal", [(n, k) for (n, k, _) in vs],
+                    [(n, "tuple") for n in ("Add", "Update", "Remove", "Psk", "ReInit", "ExternalInit", "GroupContextExtensions", "Custom")])
+        self.expect("proposal", [norm_ty(vs[6][2][0]), norm_ty(vs[7][2][0])], ["ExtensionList", "CustomProposal"])
+        self.expect("proposal", [(f, ty) for (f, ty, _) in self.fields_of("CustomProposal")],
+                    [("proposal_type", "ProposalType"), ("data", "Vec<u8>")])
+        self.hand_extension_list()
+        self.tie("tie_proposalType", f"{self.need_schema('ProposalType', 'proposal')} = u16Schema",
+                 "`proposal`: two-byte discriminant = `ProposalType(u16)`")
+        parts = [self.cty(v[2][0], {}) for v in vs[:6]]
+        return ".proposal " + " ".join(par(x) for x, _ in parts), all(c for _, c in parts)
+
+    def framed_content(self, what):
+        """checks shared by `publicMessage` and `authenticatedContent`; returns the spec of `Content`"""
+        self.expect(what, self.fields_of("FramedContent"),
+                    [("group_id", "Vec<u8>", "mls_rs_codec::byte_vec"), ("epoch", "u64", None), ("sender", "Sender", None),
+                     ("authenticated_data", "Vec<u8>", "mls_rs_codec::byte_vec"), ("content", "Content", None)])
+        self.expect(what, [(f, ty) for (f, ty, _) in self.fields_of("FramedContentAuthData")],
+                    [("signature", "MessageSignature"), ("confirmation_tag", "Option<ConfirmationTag>")])
+        # `fcIsCommit` / `fcSenderIsMember` look at these discriminants
+        cv = {n: d for (n, _, d, _, _) in parse_variants(self.it.raw["Content"]["body"])}
+        sv = {n: d for (n, _, d, _, _) in parse_variants(self.it.raw["Sender"]["body"])}
+        self.expect(what, (cv.get("Commit"), sv.get("Member")), (3, 1))
+        fc, _ = self.cty("FramedContent", {})
+        content, canon = self.cty("Content", {})
+        self.tie("tie_framedContent", f"denote {fc} = framedContent (denote {content})",
+                 "the hand model `framedContent` (inside `publicMessage` / `authenticatedContent`) is the derive layout of `FramedContent`")
+        self.tie("tie_sender", f"{self.need_schema('Sender', what)} = senderSchema", "`framedContent`, `proposalInfo`")
+        for n in ("MessageSignature", "ConfirmationTag"):
+            self.tie("tie_" + n, f"ofSchema {self.need_schema(n, what)} = bytesNewtype", "`framedContentAuthData`")
+        return content, canon
+
+    def hand_PublicMessage(self, it, args, env):
+        self.expect("publicMessage", [(f, ty) for (f, ty, _) in self.fields_of("PublicMessage")],
+                    [("content", "FramedContent"), ("auth", "FramedContentAuthData"), ("membership_tag", "Option<MembershipTag>")])
+        content, canon = self.framed_content("publicMessage")
+        self.tie("tie_MembershipTag", f"ofSchema {self.need_schema('MembershipTag', 'publicMessage')} = bytesNewtype", "`publicMessage`")
+        return f".publicMessage {par(content)}", canon
+
+    def hand_AuthenticatedContent(self, it, args, env):
+        self.expect("authenticatedContent", [(f, ty) for (f, ty, _) in self.fields_of("AuthenticatedContent")],
+                    [("wire_format", "WireFormat"), ("content", "FramedContent"), ("auth", "FramedContentAuthData")])
+        content, canon = self.framed_content("authenticatedContent")
+        self.tie("tie_wireFormat", f"{self.need_schema('WireFormat', 'authenticatedContent')} = wireFormatSchema", "`authenticatedContent`")
+        return f".authenticatedContent {par(content)}", canon
+
+    def hand_ProposalInfo(self, it, args, env):
+        self.expect("proposalInfo", [(f, ty) for (f, ty, _) in self.fields_of("ProposalInfo")],
+                    [("proposal", "T"), ("sender", "Sender"), ("source", "ProposalSource")])
+        self.tie("tie_sender", f"{self.need_schema('Sender', 'proposalInfo')} = senderSchema", "`framedContent`, `proposalInfo`")
+        self.tie("tie_proposalSource", f"{self.need_schema('ProposalSource', 'proposalInfo')} = proposalSourceSchema", "`proposalInfo`")
+        x, c = env["T"]["c"]
+        return f".proposalInfo {par(x)}", c
+
+    def hand_CommitEffect(self, it, args, env):
+        vs = parse_raw_variants(it["body"])
+        self.expect("commitEffect", [(n, k) for (n, k, _) in vs], [("NewEpoch", "tuple"), ("Removed", "struct"), ("ReInit", "tuple")])
+        ne, c1 = self.cty(vs[0][2][0], {})
+        self.expect("commitEffect", [f for (f, _) in vs[1][2]], ["new_epoch", "remover"])
+        self.expect("commitEffect", (self.cty(vs[1][2][0][1], {})[0], norm_ty(vs[1][2][1][1])), (ne, "Sender"))
+        self.tie("tie_sender", f"{self.need_schema('Sender', 'commitEffect')} = senderSchema", "`framedContent`, `proposalInfo`")
+        ri, c2 = self.cty(vs[2][2][0], {})
+        return f".commitEffect {par(ne)} {par(ri)}", c1 and c2
+
+    def hand_SecretKeyRatchet(self, it, args, env):
+        self.expect("secretKeyRatchet", [(f, ty) for (f, ty, _) in self.fields_of("SecretKeyRatchet")],
+                    [("secret", "TreeSecret"), ("generation", "u32"), ("history", "LargeMap<u32, MessageKeyData>")])
+        self.tie("tie_treeSecret", f"{self.need_schema('TreeSecret', 'secretKeyRatchet')} = .struct [.bytes]",
+                 "`secretKeyRatchet` writes the secret with `byte_vec`, as the derive of `TreeSecret` does")
+        self.tie("tie_messageKeyData", f"{self.need_schema('MessageKeyData', 'secretKeyRatchet')} = messageKeyDataSchema", "`ratchetHistory`")
+        return ".secretKeyRatchet", False
+
+
+def generate_codecs(items, res, manifest):
+    cr = CodecResolver(items, res)
+    unresolved = {}
+    schema_names = {key for (_, key, _, _) in res.order}
+    for name, it in sorted(items.raw.items()):
+        if it["generics"] or it["file"].startswith("harness/"):
+            continue
+        if name not in items.items and name not in HANDWRITTEN and name not in REFINED:
+            continue      # no codec at all
+        if name in REFINED:
+            continue      # `leafIndex` / `extensionList` themselves: the driver's custom table
+        if name in schema_names and res.done[name] not in res.refined:
+            continue      # plain schema, first pass
+        try:
+            cr.item(name, [], {})
+        except KeyError as e:
+            unresolved[name] = str(e).strip("'\"")
+    for q in sorted(items.shadowed):
+        try:
+            cr.item(q, [], {})
+        except KeyError as e:
+            unresolved[q] = str(e).strip("'\"")
+    # the `content` hand model is not used by the generated codecs (`Content` is a derived enum), but the framing
+    # hand models look inside its values: tie it as well
+    if isinstance(cr.done.get("Content"), str) and isinstance(cr.done.get("Proposal"), str) and isinstance(cr.done.get("Commit"), str):
+        try:
+            app = cr.need_schema("ApplicationData", "content")
+            cr.tie("tie_content", f"denote S_Content = content (ofSchema {app}) (denote S_Proposal) (denote S_Commit)",
+                   "the hand model `content` is the derive layout of `Content`")
+        except KeyError:
+            pass
+    out = ["/- GENERATED by tools/translate.py (translate_schemas.py, second pass) from the Rust sources; do not edit.",
+           "   One codec expression `S_<Name> : CSpec` (Model/CodecSpec.lean) and its codec `C_<Name> := denote S_<Name>` per item",
+           "   deriving or implementing MlsDecode that is not a plain `Schema`, or whose schema contains a refined decoder",
+           "   (LeafIndex, ExtensionList: here with their exact hand models).  `derive`: layout of the derive macro over the",
+           "   component codecs; `hand model`: the model of the hand-written impl in Model/CodecCustom.lean, applied to the",
+           "   components found in the Rust item.  What cannot be built is listed in gen_manifest.json `codecs_unresolved`. -/",
+           "import MlsVerif.Model.CodecSpec", "import MlsVerif.Gen.Schemas", "namespace MlsVerif.Gen.Codecs",
+           "open MlsVerif.Codec MlsVerif.Codec.Codec MlsVerif.Gen.Schemas", ""]
+    for ln, key, expr, f, canon, how in cr.order:
+        out.append(f"/-- `{key}` ({f}; {how}; {'WIRE' if canon else 'STATE'}) -/")
+        out.append(f"def {ln} : CSpec := {expr}")
+        out.append(f"def C_{ln[2:]} : Codec := denote {ln}")
+    out.append("")
+    out.append("def specTable : List (String × CSpec) := [")
+    out.append(",\n".join(f'  ("{key}", {ln})' for (ln, key, _, _, _, _) in cr.order))
+    out.append("]")
+    out.append("def codecTable : List (String × Codec) := [")
+    out.append(",\n".join(f'  ("{key}", C_{ln[2:]})' for (ln, key, _, _, _, _) in cr.order))
+    out.append("]")
+    out.append("/-- the WIRE (`true`) / STATE (`false`) flags of Gen/codecs.txt, in table order; `Props.C12GenCodecs.wire_flags` -/")
+    out.append("def wireFlags : List Bool := [" + ", ".join("true" if c else "false" for (_, _, _, _, c, _) in cr.order) + "]")
+    out.append("theorem codecTable_eq : codecTable = specTable.map (fun p => (p.1, denote p.2)) := rfl")
+    out.append("")
+    out.append("/-! ## Ties of the hand models to the generated layouts: what is hard-wired in Model/CodecCustom.lean is what the")
+    out.append("translator found in the Rust items (a change of the Rust item makes the `rfl` fail). -/")
+    for tn, (stmt, doc) in cr.ties.items():
+        out.append(f"/-- {doc} -/")
+        out.append(f"theorem {tn} : {stmt} := rfl")
+    out.append("end MlsVerif.Gen.Codecs")
+    manifest["_codecs_txt"] = "".join(f"{key}\t{'WIRE' if c else 'STATE'}\t{'schema+refined' if key in schema_names else 'new'}\t{how}\n"
+                                      for (_, key, _, _, c, how) in cr.order)
+    manifest["codecs"] = [{"name": key, "file": f, "wire": c, "how": how, "also_schema": key in schema_names}
+                          for (_, key, _, f, c, how) in cr.order]
+    manifest["codecs_unresolved"] = unresolved
+    return "\n".join(out) + "\n"
+
+
 def generate(repo, manifest):
     items = Items()
     for root in ROOTS:
@@ -274,6 +684,8 @@ def generate(repo, manifest):
             res.item(name, [])
         except KeyError as e:
             unresolved[name] = str(e).strip("'\"")
+    # second pass first: it may instantiate further generic items as plain schemas (appended to res.order)
+    manifest["_codecs_lean"] = generate_codecs(items, res, manifest)
     out = ["/- GENERATED by tools/translate.py (translate_schemas.py) from the Rust sources; do not edit.",
            "   One `Schema` per item deriving MlsSize/MlsEncode/MlsDecode whose fields resolve to generic codec nodes.",
            "   Items depending on a hand-written codec are not approximated (see gen_manifest.json `schemas_unresolved`). -/",
